@@ -1660,33 +1660,174 @@ func seqnoMerge(c *Ctx, id string) {
 			return ""
 		}, "store(entry.VbID, entry.SeqNo) ⇔ ¬exist ∨ entry.SeqNo > recorded")
 	}
-	// every node, every collection: i = 1..numNodes inclusive, j = 0..collections-1
-	root := rootFn(site.Fn)
-	okNodes := false
-	allInstrs(root, func(in ssa.Instruction) {
-		ifi, ok := in.(*ssa.If)
-		if !ok {
-			return
-		}
-		b, ok := ifi.Cond.(*ssa.BinOp)
-		if !ok || b.Op.String() != "<=" {
-			return
-		}
-		phi, isPhi := b.X.(*ssa.Phi)
-		if !isPhi {
-			return
-		}
-		init1 := false
-		for _, e := range phi.Edges {
-			if w.Origin(e) == "const(1)" {
-				init1 = true
+	// every node, every collection: the whole sampling function evaluated for 0..3 nodes × 1..2 collections ×
+	// collection awareness × the step that fails
+	seqnoFanOut(c, id, rootFn(site.Fn))
+}
+
+// structFieldAV reads field `name` of a struct value (or of the struct a pointer value points to) as the run left it.
+func structFieldAV(a AV, name string) (AV, bool) {
+	var c *cell
+	switch x := a.(type) {
+	case avStruct:
+		c = x.c
+	case avPtr:
+		c = x.c
+	}
+	if c == nil {
+		return nil, false
+	}
+	t := c.typ
+	if p, ok := t.Underlying().(*types.Pointer); ok {
+		t = p.Elem()
+	}
+	st, ok := t.Underlying().(*types.Struct)
+	if !ok {
+		return nil, false
+	}
+	for i := 0; i < st.NumFields(); i++ {
+		if st.Field(i).Name() == name {
+			if i < len(c.fields) && c.fields[i] != nil && c.fields[i].have {
+				return c.fields[i].val, true
 			}
+			return nil, true // never written: the zero value
 		}
-		if init1 && strings.Contains(w.Origin(b.Y), "NumServers") {
-			okNodes = true
+	}
+	return nil, false
+}
+
+// ptrResult: a non-nil pointer to a fresh symbolic object of the i-th result's element type.
+func ptrResult(res *types.Tuple, i int, sym string) AV {
+	if res != nil && i < res.Len() {
+		switch p := res.At(i).Type().Underlying().(type) {
+		case *types.Pointer:
+			return avPtr{&cell{typ: p.Elem(), sym: sym}}
+		case *types.Interface:
+			return avIface{sym: sym}
 		}
-	})
-	c.Check(okNodes, id, "seqno-nodes", root.Pos(), "every node is asked: server index runs from 1 to NumServers() inclusive", "the node loop does not run from 1 to NumServers() inclusive: the vBuckets of a node are missing from the map")
+	}
+	return avOpaque{"result " + sym}
+}
+
+// seqnoFanOut: GetVBucketSeqNos asks every node 1..NumServers() for every configured collection (unfiltered when the
+// request is not collection-aware), asks nothing else, returns the map iff every step succeeded and an error otherwise.
+func seqnoFanOut(c *Ctx, id string, root *ssa.Function) {
+	w := c.W
+	c.see(root)
+	c.need(len(root.Params) == 2, id, "GetVBucketSeqNos(awareCollection)")
+	aware := root.Params[1].Name()
+	const (
+		failNone = iota
+		failSnapshot
+		failNumServers
+		failCollections
+		failDispatch
+		failWait
+		nFail
+	)
+	noInline := map[string]bool{}
+	for _, fn := range w.ModFuncs {
+		if fn.Pkg == root.Pkg && (fn.Name() == "NewAsyncOp" || fn.Name() == "GetCollectionIDs" || (fn.Signature.Recv() != nil && recvTypeName(fn.Signature.Recv().Type()) == "AsyncOp")) {
+			noInline[fname(fn)] = true
+		}
+	}
+	h := &Harness{Fn: root, Bools: []string{aware, "hasCollectionsSupport"}, Choices: map[string]int{"nodes": 4, "collections": 2, "fails": nFail},
+		Quiet: quietLog, MaxSteps: 60000, Concrete: true, NoInline: noInline,
+		Oracle: func(st *State, name string, args []AV, res *types.Tuple) ([]AV, bool) {
+			errOr := func(which int, sym string) AV {
+				if st.C("fails") == which {
+					return avIface{sym: sym}
+				}
+				return avIface{isNil: true}
+			}
+			switch {
+			case strings.HasSuffix(name, ".ConfigSnapshot"):
+				return []AV{ptrResult(res, 0, "snapshot"), errOr(failSnapshot, "errSnapshot")}, true
+			case strings.HasSuffix(name, ".NumServers"):
+				return []AV{avInt{conc: int64(st.C("nodes"))}, errOr(failNumServers, "errNumServers")}, true
+			case strings.HasSuffix(name, ".HasCollectionsSupport"):
+				return []AV{avBool{st.B("hasCollectionsSupport")}}, true
+			case strings.HasSuffix(name, ".GetCollectionIDs"):
+				mo := &mapObj{sym: "collectionIDs"}
+				for i := 0; i <= st.C("collections"); i++ {
+					mo.keys = append(mo.keys, avInt{atom: fmt.Sprintf("cid%d", i)})
+					mo.vals = append(mo.vals, avStr{sym: fmt.Sprintf("name%d", i)})
+				}
+				return []AV{avMap{mo}, errOr(failCollections, "errCollections")}, true
+			case strings.HasSuffix(name, ".GetVbucketSeqnos"):
+				return []AV{avIface{sym: "pendingOp"}, errOr(failDispatch, "errDispatch")}, true
+			case strings.HasSuffix(name, ".Wait") && res != nil && res.Len() == 1:
+				return []AV{errOr(failWait, "errWait")}, true
+			case strings.HasSuffix(name, ".NewAsyncOp"):
+				return []AV{ptrResult(res, 0, "asyncOp")}, true
+			}
+			return nil, false
+		}}
+	c.oae(id, "seqno-fan-out", root.Pos(), h, func(st *State, out *Outcome) string {
+		if out.Panicked {
+			return "panics"
+		}
+		n, k, fails := st.C("nodes"), st.C("collections")+1, st.C("fails")
+		filtered := st.B(aware) && st.B("hasCollectionsSupport")
+		if !filtered {
+			k = 1
+		}
+		reqs := out.Effects("(*github.com/couchbase/gocbcore/v10.DCPAgent).GetVbucketSeqnos")
+		if len(out.Ret) != 2 {
+			return "unexpected result arity"
+		}
+		e, isI := out.Ret[1].(avIface)
+		if !isI {
+			return "the returned error is not determined: " + avString(out.Ret[1])
+		}
+		early := fails == failSnapshot || fails == failNumServers || fails == failCollections
+		anyReq := n*k > 0
+		wantErr := early || ((fails == failDispatch || fails == failWait) && anyReq)
+		if wantErr != !e.isNil {
+			return fmt.Sprintf("returns error=%s although the failing step is %d with %d requests", avString(e), fails, n*k)
+		}
+		if wantErr {
+			if _, isRef := out.Ret[0].(avRef); !isRef {
+				if p, isP := out.Ret[0].(avPtr); !isP || p.c != nil {
+					return "returns a map together with an error: " + avString(out.Ret[0])
+				}
+			}
+			if early && len(reqs) != 0 {
+				return "asks the nodes although an earlier step failed"
+			}
+			return ""
+		}
+		if p, isP := out.Ret[0].(avPtr); isP && p.c == nil {
+			return "returns no map although every step succeeded"
+		}
+		seen := map[string]bool{}
+		for _, r := range reqs {
+			if len(r.Args) != 5 {
+				return "unexpected request arity: " + r.String()
+			}
+			idx, ok := r.Args[1].(avInt)
+			if !ok || idx.atom != "" || idx.conc < 1 || int(idx.conc) > n {
+				return "a request goes to server index " + avString(r.Args[1]) + fmt.Sprintf(" (valid: 1..%d)", n)
+			}
+			fo, _ := structFieldAV(r.Args[3], "FilterOptions")
+			col := "unfiltered"
+			if p, isP := fo.(avPtr); isP && p.c != nil {
+				cid, _ := structFieldAV(p, "CollectionID")
+				col = avString(cid)
+			}
+			if filtered != (col != "unfiltered") {
+				return fmt.Sprintf("request filter is %s although collection filtering is %v", col, filtered)
+			}
+			if filtered && !strings.HasPrefix(col, "cid") {
+				return "the filter names " + col + ", not one of the configured collection ids"
+			}
+			seen[fmt.Sprintf("%d/%s", idx.conc, col)] = true // (asking twice is redundant, not wrong: the merge keeps the maximum)
+		}
+		if len(seen) != n*k {
+			return fmt.Sprintf("%d of the %d node × collection combinations are asked (%d nodes, %d filters)", len(seen), n*k, n, k)
+		}
+		return ""
+	}, "requests ⊇ {1..NumServers()} × (configured collection ids | one unfiltered) and nothing else; map returned ⇔ every step succeeded")
 }
 
 // clientWiring (C13/C15/C17/C05): the client's own start and close paths, call by call. Every step below must be
